@@ -1616,14 +1616,17 @@ class mulgrid(object):
         return grid
 
     def add_layers(self, thicknesses, top_elevation = 0, justify = 'r',
-                   chars  =  ascii_lowercase, spaces = True):
-        """Adds layers of specified thicknesses and top elevation."""
+                   chars  =  ascii_lowercase, spaces = True, surfacelayername = None):
+        """Adds layers of specified thicknesses and top elevation.  The
+        surface (atmosphere) layer is given the default name for the
+        naming convention, unless surfacelayername is specified."""
         justfn = [str.rjust, str.ljust][justify == 'l']
         chars = uniqstring(chars)
         num = 0
         self.clear_layers()
         z = top_elevation
-        surfacelayername = [' 0', 'atm', 'at', ' 0'][self.convention]
+        if surfacelayername is None:
+            surfacelayername = [' 0', 'atm', 'at', ' 0'][self.convention]
         self.add_layer(layer(surfacelayername, z, z))
         for thickness in thicknesses:
             z -= thickness
@@ -4036,9 +4039,8 @@ class mulgrid(object):
             else: thicknesses.append(lay.thickness)
         self.clear_layers()
         justify = ['l', 'r'][self.right_justified_names]
-        self.add_layers(thicknesses, top_elevation, justify, chars, spaces)
-        # Preserve old atmosphere layer name:
-        self.rename_layer(self.layerlist[0].name, atm_name)
+        # (old atmosphere layer name is preserved, and avoided by the new layer names)
+        self.add_layers(thicknesses, top_elevation, justify, chars, spaces, atm_name)
         for col in self.columnlist: self.set_column_num_layers(col)
         self.setup_block_name_index()
         self.setup_block_connection_name_index()
